@@ -1,6 +1,6 @@
 (* C02 — rendering is faithful.  Theorems only. *)
 From V Require Import Base.Bytes Model.Escape Model.Tok Proofs.EscapeP Proofs.TokP Proofs.RoundTrip
-  Proofs.Padded Proofs.Pretty Proofs.ReadBack Model.Interp Proofs.InterpP.
+  Proofs.Padded Proofs.Pretty Proofs.ReadBack Model.Interp Proofs.InterpP Model.Rcdata Proofs.RcdataP.
 
 (* 1. character references: what the serialiser's escaping writes, the parser's decoding gives back -
       for ALL byte strings (text and attribute values alike) *)
@@ -73,3 +73,11 @@ Theorem C02_first_line_break_kept :
   forall s, parser_drop ((if starts_break s then nl else []) ++ s) = s.
 Proof. exact first_break_kept. Qed.
 Print Assumptions C02_first_line_break_kept.
+
+(* the text of <textarea> and <title>: whatever it holds (character references, an end tag of the element spelled
+   in any letter case), what is written is read back as that text, and the element ends where it ended *)
+Theorem C02_rcdata_text_round_trip : forall tag t rest,
+  rc_split tag (escape t ++ close_tag tag ++ rest) = (escape t, Some (close_tag tag ++ rest)) /\
+  rc_text tag (escape t ++ close_tag tag ++ rest) = t.
+Proof. exact rc_escape_roundtrip. Qed.
+Print Assumptions C02_rcdata_text_round_trip.
